@@ -2,6 +2,8 @@ package props
 
 import (
 	"fmt"
+	"os"
+	"path/filepath"
 	"strings"
 
 	jd "github.com/josephburnett/jd/v2"
@@ -19,7 +21,7 @@ var yamlStrings = []string{
 	"- x", "-", "- ", "a: b", "a:", ":", ": a", "a :b", "#", "# c", "a #c", "a#c", "&a", "*a", "!t", "!!str x", "|", ">", "|-", ">+", "%", "%YAML", "@", "`", "<<", "=", "?", "? a", "[", "]", "{", "}", "[a]", "{a: b}", ",", "a, b",
 	"'", "''", "\"", "\\", "a'b", "a\"b", "a\\b", "\\n", " ", "  ", " a", "a ", " a ", "\t", "a\tb", "\ta", "\n", "a\nb", "a\n", "\na", "a\n\nb", "a\r\nb", "\r", "a\n  b", "  a\nb",
 	"\u0085", "a\u0085b", "\u2028", "\u2029", "\uFEFF", "\uFEFFa", "\u0000", "a\u0000b", "\u0001", "\u001b[0m", "\u007f", "\u00a0", "é", "日本語", "\U0001F600", "a\U0001F600b", "\u00e9\n\u00e9",
-	"---", "...", "--- a", "key: [1, 2]", "x: |\n  y", "multi\nline\ntext\n", "trailing colon:", "question? mark", "- - a", "a: - b", "<<: *a", "!!binary aGk=", "0.0", "-0", "00", "1e", "e1", "0x", "++1", "1.2.3", "1,000", "١٢٣",
+	",]", ", }", "x{2,}", "[1,]", "a,]", "{\"a\":1,}", "---", "...", "--- a", "key: [1, 2]", "x: |\n  y", "multi\nline\ntext\n", "trailing colon:", "question? mark", "- - a", "a: - b", "<<: *a", "!!binary aGk=", "0.0", "-0", "00", "1e", "e1", "0x", "++1", "1.2.3", "1,000", "١٢٣",
 }
 
 var yamlNumbers = []float64{0, 1, -1, 2147483647, 2147483648, -2147483649, 9007199254740991, 9007199254740992, 9007199254740993, 9223372036854775807, 9223372036854775808, 18446744073709551615, 18446744073709551616,
@@ -85,6 +87,20 @@ func c16Carrier(c *mon.Ctx, v any) {
 		return
 	}
 	c.Nontrivial(j)
+	if c.Index%5 == 0 && c.WorkDir != "" {
+		// the file entry points read exactly what the string entry points read
+		jf, yf := filepath.Join(c.WorkDir, "doc.json"), filepath.Join(c.WorkDir, "doc.yaml")
+		y0 := ref.YamlEmit(v, ref.YBlockDouble)
+		if os.WriteFile(jf, []byte(j), 0o644) == nil && os.WriteFile(yf, []byte(y0), 0o644) == nil {
+			NF, e1 := jd.ReadJsonFile(jf)
+			YF, e2 := jd.ReadYamlFile(yf)
+			c.Feature("file_readers_compared")
+			if e1 != nil || e2 != nil || !ref.Eq(Plain(NF), v, ref.List) || !ref.Eq(Plain(YF), v, ref.List) {
+				c.Violation("ReadJsonFile / ReadYamlFile read a document differently from ReadJsonString / ReadYamlString", map[string]any{"err_json": fmt.Sprint(e1), "err_yaml": fmt.Sprint(e2)})
+				return
+			}
+		}
+	}
 	// (i) the same document in YAML, written by the independent emitter
 	for _, st := range []ref.YamlStyle{ref.YBlockDouble, ref.YBlockSingle, ref.YFlowDouble, ref.YBlockPlain} {
 		y := ref.YamlEmit(v, st)
